@@ -529,6 +529,12 @@ func main() {
 	// ---- results ----
 	stats, failures := e.coll.finish()
 	sort.Slice(e.pkgs, func(i, k int) bool { return e.pkgs[i].ID < e.pkgs[k].ID })
+	if e.notes == nil {
+		e.notes = []string{}
+	}
+	if failures == nil {
+		failures = []Failure{}
+	}
 	res := map[string]interface{}{
 		"engine": "wire", "seed": *seed, "tier": *tier, "model": e.modelPath,
 		"elapsed_seconds": time.Since(e.start).Seconds(),
